@@ -184,7 +184,7 @@ pub fn run(reg: &[Box<dyn TypeOps>], cfg: &Cfg, out: &mut dyn Write) {
         let mut rng = Rng::new(cfg.seed ^ ((tid as u64 + 1) * 0x2545F491));
         let al = t.align();
         // boundary histories for 1-byte offset types: an item whose link offset lands on / next to `L::MAX`, then another push
-        let mut boundary: Vec<Vec<Op>> = vec![];
+        let mut boundary: Vec<(usize, Vec<Op>)> = vec![];
         if let Shape::Flex(e, l) = &sh {
             if l.size == 1 {
                 for n in 244..=256usize {
@@ -195,18 +195,27 @@ pub fn run(reg: &[Box<dyn TypeOps>], cfg: &Cfg, out: &mut dyn Write) {
                     };
                     if let Some(it) = item {
                         let small = gen_init(e, &mut rng, 1);
-                        boundary.push(vec![Op::FPush(small.clone()), Op::FPush(it), Op::FPush(small.clone()), Op::FPop, Op::FPush(small)]);
+                        boundary.push((700, vec![Op::FPush(small.clone()), Op::FPush(it), Op::FPush(small.clone()), Op::FPop, Op::FPush(small)]));
                     }
                 }
             }
+        }
+        // capacities above what a 2-byte length type can count (a buffer of more than 64 KiB): the string is filled up to and across
+        // `L::MAX` = 65535 (strings only: the model's element-wise rendering makes a 65 535-element vector too slow to replay)
+        match &sh {
+            Shape::Str(l) if l.size == 2 => {
+                boundary.push((2 + 65536 + 6, vec![Op::PushStr(vec![b'a'; 65530]), Op::PushStr(b"bcd".to_vec()), Op::PushStr(b"ef".to_vec()), Op::PushStr(b"g".to_vec()),
+                    Op::PushStr(b"h".to_vec()), Op::Clear, Op::PushStr(b"xy".to_vec())]));
+            }
+            _ => {}
         }
         let n_hist = boundary.len() + cfg.scale * if cfg.thorough { 60 } else { 10 } / if fielded { 2 } else { 1 };
         let n_steps = if fielded { 8 } else if cfg.thorough { 60 } else { 25 };
         for h in 0..n_hist {
             // buffer sizes: from the minimum to comfortably large; sometimes beyond what a u8 length can count
-            let scripted: Option<Vec<Op>> = if h < boundary.len() { Some(boundary[h].clone()) } else { None };
-            let room = if scripted.is_some() { 700 } else { t.min_size() + match rng.below(6) { 0 => rng.below(3) as usize, 1 => rng.below(12) as usize, 2 | 3 => 8 + rng.below(40) as usize, 4 => 40 + rng.below(120) as usize, _ => 250 + rng.below(120) as usize } };
-            let place = if (PAGE - room) % al == 0 && h % 2 == 0 { Place::End } else { Place::Mid(0) };
+            let scripted: Option<Vec<Op>> = if h < boundary.len() { Some(boundary[h].1.clone()) } else { None };
+            let room = if scripted.is_some() { boundary[h].0 } else { t.min_size() + match rng.below(6) { 0 => rng.below(3) as usize, 1 => rng.below(12) as usize, 2 | 3 => 8 + rng.below(40) as usize, 4 => 40 + rng.below(120) as usize, _ => 250 + rng.below(120) as usize } };
+            let place = if (PAGE - room % PAGE) % al == 0 && h % 2 == 0 { Place::End } else { Place::Mid(0) };
             let mut state = rng.bytes(room);
             // start from the default (empty) container emplaced on garbage; a struct / enum from a generated content
             let d0 = match sh { Shape::Vec(..) => D::VecEmpty, Shape::Str(..) => D::StrFrom(vec![]), Shape::Flex(..) => D::FlexEmpty, _ => gen_init(&sh, &mut rng, 0).strip_def() };
